@@ -63,27 +63,29 @@ Definition d2t2 (t : tolx) (x y : value) : option (Q * Q) :=
   if v_finite x && v_finite y
   then match v_sub x y with Some d => Some (v_norm2 d, tol_sq t x) | None => None end
   else None.
-Definition near_boundary (t : tolx) (x y : value) : bool :=
-  match d2t2 t x y with
+Definition near_of (dt : option (Q * Q)) : bool :=
+  match dt with
   | Some (d2, t2) => if Qeq_bool d2 0 && Qeq_bool t2 0 then false
                      else Qle_bool (Qabs (d2 - t2)) (band * (d2 + t2))
   | None => false
   end.
 (* the property's decision, stated directly (squares; infinities match only themselves) *)
-Definition direct (t : tolx) (x y : value) : option bool :=
+Definition direct_of (dt : option (Q * Q)) (x y : value) : option bool :=
   match x, y with
   | VInf p, VInf q => Some (Bool.eqb p q)
   | VInf _, VNum _ => Some false
   | VNum _, VInf _ => Some false
-  | _, _ => match d2t2 t x y with Some (d2, t2) => Some (Qle_bool d2 t2) | None => None end
+  | _, _ => match dt with Some (d2, t2) => Some (Qle_bool d2 t2) | None => None end
   end.
-Definition wt_agree (t : tolx) (x y : value) (obs : option bool) : bool :=
+(* (model = regenerated = direct decision, and = the implementation's outcome unless guard-banded ; guard-banded?) *)
+Definition wt_check (t : tolx) (x y : value) (obs : option bool) : bool * bool :=
   let m := within_tolerance x y t in
-  ob_eqb m (Gen.Tolerance.gen_within_tolerance x y t)
-  && ob_eqb (Gen.Tolerance.gen_within_tolerance x y t) (direct t x y)
-  && (near_boundary t x y || ob_eqb m obs).
+  let g := Gen.Tolerance.gen_within_tolerance x y t in
+  let dt := d2t2 t x y in
+  let near := near_of dt in
+  (ob_eqb m g && ob_eqb g (direct_of dt x y) && (near || ob_eqb m obs), near).
 Definition wt_case (c : tolx * value * value * option bool) : bool :=
-  match c with (t, x, y, obs) => wt_agree t x y obs end.
+  match c with (t, x, y, obs) => fst (wt_check t x y obs) end.
 
 Definition entry_eqb (a b : entry) : bool :=
   okv_eqb (e_ok a) (e_ok b) && Qeq_bool (e_grade a) (e_grade b) && str_eqb (e_msg a) (e_msg b).
@@ -106,14 +108,14 @@ Record gcase := mkG { k_tol : tolx; k_fail : Z; k_ans : entry; k_evs : list (val
 Definition gen_raw_check := raw_check_with Gen.Tolerance.gen_within_tolerance Gen.Tolerance.gen_consolidate_results.
 Definition grader_case (c : gcase) : bool :=
   let t := k_tol c in
-  forallb (fun ev => match ev with (x, y, ok) => wt_agree t x y (Some ok) end) (k_evs c)
+  let checks := map (fun ev => match ev with (x, y, ok) => wt_check t x y (Some ok) end) (k_evs c) in
+  forallb fst checks
   && (let results := map (fun ev => scale_result (k_ans c) (standardize_bool (snd ev))) (k_evs c) in
       cons_case (results, Some (k_ans c), k_fail c, k_obs c))
-  && (existsb (fun ev => match ev with (x, y, _) => near_boundary t x y end) (k_evs c)
-      || match gen_raw_check t (k_fail c) (k_ans c) (map (fun ev => match ev with (x, y, _) => ([x], y) end) (k_evs c)),
-               raw_check t (k_fail c) (k_ans c) (map (fun ev => match ev with (x, y, _) => ([x], y) end) (k_evs c)) with
-         | Some r, Some r' => entry_eqb r (k_obs c) && entry_eqb r' (k_obs c)
-         | _, _ => false
+  && (existsb snd checks
+      || match gen_raw_check t (k_fail c) (k_ans c) (map (fun ev => match ev with (x, y, _) => ([x], y) end) (k_evs c)) with
+         | Some r => entry_eqb r (k_obs c)
+         | None => false
          end).
 '''
 
@@ -921,7 +923,7 @@ def run_graders(ctx, res, rng):
     quick = ctx['tier'] == 'quick'
     n_cases = 1500 if quick else 14000
     if ctx['escalate'] and quick:
-        n_cases = 2600
+        n_cases = 2200
     cases = corpus()
     res.distribution['corpus_cases'] = len(cases)
     for i in range(n_cases):
